@@ -84,7 +84,7 @@ TSpec == TInit /\ [][TNext]_tvars
 
 \* evaluated in every state of the replay
 TraceInv == /\ CountsMatch /\ ShimMatches /\ WithinCapacity
-            /\ (idk => HeaderKept)
+            /\ (Dev = {} => HeaderKept)
             /\ TableWithinBufferDev
 
 Accepted ==
